@@ -21,7 +21,7 @@ func init() { register("MapRanges", mapRanges) }
 // directories (relative to the repository), walked recursively; test files and testdata are skipped
 var mapRangeDirs = []string{
 	"pkg/pbutil", "pkg/exporter", "pkg/sequencediagram", "pkg/cmdutils", "pkg/integrationdiagram",
-	"pkg/datamodeldiagram", "pkg/database", "pkg/importer", "pkg/arrai/relmod", "pkg/mermaid", "pkg/syslwrapper", "pkg/syslutil", "pkg/diagrams",
+	"pkg/datamodeldiagram", "pkg/database", "pkg/importer", "pkg/arrai/relmod", "pkg/mermaid", "pkg/syslwrapper", "pkg/syslutil", "pkg/diagrams", "language/go/pkg/relgom", "language/go/pkg/codegen", "pkg/transforms", "pkg/eval", "cmd/sysl",
 }
 
 type mapRange struct {
@@ -84,32 +84,45 @@ func nodeSrc(si *srcImporter, n ast.Node) string {
 // map-based set in iteration order (syslutil.StrSet.ToSlice): the caller receives an unordered slice.
 var unorderedSetMethods = map[string]bool{"ToSlice": true}
 
-func collectMapRanges(repo string) ([]mapRange, []string, error) {
+type checkedPkg struct {
+	pkg   string
+	files []*ast.File
+	info  *types.Info
+}
+
+func collectMapRanges(repo string) ([]mapRange, []string, []sortSite, []*pkgVar, error) {
 	var unordered []string
+	var sorts []sortSite
+	vars := newVarTable()
+	var checked []checkedPkg
 	si := newSrcImporter(repo)
 	if si.modpath == "" {
-		return nil, nil, fmt.Errorf("cannot read %s/go.mod", repo)
+		return nil, nil, nil, nil, fmt.Errorf("cannot read %s/go.mod", repo)
 	}
 	var out []mapRange
 	for _, top := range mapRangeDirs {
 		dirs := goDirs(repo, top)
 		if len(dirs) == 0 {
-			return nil, nil, fmt.Errorf("no Go package under %s", top)
+			return nil, nil, nil, nil, fmt.Errorf("no Go package under %s", top)
 		}
 		for _, rel := range dirs {
 			files, info, _ := si.checkTarget(rel)
 			if info == nil {
-				return nil, nil, fmt.Errorf("cannot load %s", rel)
+				return nil, nil, nil, nil, fmt.Errorf("cannot load %s", rel)
 			}
-			pkg := strings.TrimPrefix(filepath.ToSlash(rel), "pkg/")
+			pkg := strings.TrimPrefix(strings.TrimPrefix(filepath.ToSlash(rel), "language/go/"), "pkg/")
 			sort.Slice(files, func(i, j int) bool {
 				return si.fset.File(files[i].Pos()).Name() < si.fset.File(files[j].Pos()).Name()
 			})
+			less := lessMethods(files)
+			vars.declare(pkg, files, info)
+			checked = append(checked, checkedPkg{pkg, files, info})
 			for _, f := range files {
 				for _, fd := range funcDecls(f) {
 					if fd.Body == nil {
 						continue
 					}
+					sorts = append(sorts, collectSortSites(si, info, pkg, fd, less)...)
 					n := 0
 					ast.Inspect(fd.Body, func(nd ast.Node) bool {
 						if call, ok := nd.(*ast.CallExpr); ok {
@@ -144,7 +157,10 @@ func collectMapRanges(repo string) ([]mapRange, []string, error) {
 		}
 	}
 	sort.Strings(unordered)
-	return out, unordered, nil
+	for _, c := range checked {
+		vars.writes(c.pkg, c.files, c.info)
+	}
+	return out, unordered, sorts, vars.sorted(), nil
 }
 
 // isRecvType: does expression e have the receiver's own type (a method of the set calling its sibling)?
@@ -158,7 +174,7 @@ func isRecvType(info *types.Info, fd *ast.FuncDecl, e ast.Expr) bool {
 }
 
 func mapRanges(repo string) (string, error) {
-	rs, unordered, err := collectMapRanges(repo)
+	rs, unordered, sorts, vars, err := collectMapRanges(repo)
 	if err != nil {
 		return "", err
 	}
@@ -166,10 +182,16 @@ func mapRanges(repo string) (string, error) {
 		for _, r := range rs {
 			fmt.Fprintf(os.Stderr, "=== %s.%s #%d: %s (%s)\n%s\n\n", r.pkg, r.fn, r.ord, r.class, r.detail, r.src)
 		}
+		for _, v := range vars {
+			fmt.Fprintf(os.Stderr, "=== VAR %s %s written=%v %v\n", v.name, v.kind, v.written, v.by)
+		}
+		for _, s := range sorts {
+			fmt.Fprintf(os.Stderr, "=== SORT %s.%s #%d: %s %v %s (%s)\n", s.pkg, s.fn, s.ord, s.api, s.keys, s.src, s.detail)
+		}
 	}
 	var sb strings.Builder
 	sb.WriteString("(* GENERATED by vt MapRanges from the generator packages -- do not edit *)\n")
-	sb.WriteString("From Coq Require Import List String.\nImport ListNotations.\nRequire Import Verif.Determ.MapOrder.\nLocal Open Scope string_scope.\n")
+	sb.WriteString("From Coq Require Import List String.\nImport ListNotations.\nRequire Import Verif.Determ.MapOrder Verif.Determ.SortSites.\nLocal Open Scope string_scope.\n")
 	sb.WriteString("Definition ranges : list map_range := [\n")
 	for i, r := range rs {
 		sep := ";"
@@ -186,6 +208,34 @@ func mapRanges(repo string) (string, error) {
 			sb.WriteString("; ")
 		}
 		fmt.Fprintf(&sb, "%q", u)
+	}
+	sb.WriteString("].\n")
+	sb.WriteString("(* every sort.Slice / sort.SliceStable / sort.Sort / sort.Stable call: comparator as a lexicographic chain of projections, source of the slice *)\n")
+	sb.WriteString("Definition sort_sites : list sort_site := [\n")
+	for i, s := range sorts {
+		sep := ";"
+		if i == len(sorts)-1 {
+			sep = ""
+		}
+		ks := make([]string, len(s.keys))
+		for j, k := range s.keys {
+			ks[j] = fmt.Sprintf("(%s, %s)", k.kind, coqStr(k.text))
+		}
+		fmt.Fprintf(&sb, "  SS %q %d %s [%s] %s%s\n", s.pkg+"."+s.fn, s.ord, s.api, strings.Join(ks, "; "), s.src, sep)
+	}
+	sb.WriteString("].\n")
+	sb.WriteString("(* package-level variables of the walked packages: name, kind, written by some function body *)\n")
+	sb.WriteString("Definition package_vars : list pkg_var := [\n")
+	for i, v := range vars {
+		sep := ";"
+		if i == len(vars)-1 {
+			sep = ""
+		}
+		w := "false"
+		if v.written {
+			w = "true"
+		}
+		fmt.Fprintf(&sb, "  PV %s %s %s%s\n", coqStr(v.name), v.kind, w, sep)
 	}
 	sb.WriteString("].\n")
 	return sb.String(), nil
